@@ -317,6 +317,9 @@ func runHistory(seed uint64, idx, nBlocks int, cnt *Counters) (*finding, int, []
 	}
 	gap0 := world.NextGap(r)
 	later := r.Chance(1, 2)
+	if os.Getenv("C14_NO_LATER") != "" { // diagnosis aid: import at the export time
+		later = false
+	}
 	var aimed *time.Time
 	if later && len(pending) > 0 && r.Chance(3, 4) { // the first follow-up block lands at or after a pending proposal's deadline
 		dl := pending[r.Intn(len(pending))].Deadline
@@ -437,6 +440,33 @@ func runHistory(seed uint64, idx, nBlocks int, cnt *Counters) (*finding, int, []
 		}
 		w.Height, w.Time = height, t
 		txs, descs := w.GenBlockTxs(r, A, 2+r.Intn(6))
+		if os.Getenv("C14_DEBUG") != "" {
+			for name, X := range map[string]app.TestApp{"A": A, "B": B} {
+				cx := X.NewContext(true, tmproto.Header{Height: height, Time: t, ChainID: app.TestChainId})
+				ik := X.GetIncentiveKeeper()
+				for u := 0; u < 3; u++ {
+					ad := w.Addrs[u]
+					line := fmt.Sprintf("DBG k=%d %s user%d:", k, name, u)
+					if c, ok := ik.GetUSDXMintingClaim(cx, ad); ok {
+						line += " usdx=" + c.Reward.String()
+					}
+					if c, ok := ik.GetHardLiquidityProviderClaim(cx, ad); ok {
+						line += " hard=" + c.Reward.String()
+					}
+					if c, ok := ik.GetDelegatorClaim(cx, ad); ok {
+						line += " deleg=" + c.Reward.String()
+					}
+					if c, ok := ik.GetSwapClaim(cx, ad); ok {
+						line += " swap=" + c.Reward.String()
+					}
+					if c, ok := ik.GetEarnClaim(cx, ad); ok {
+						line += " earn=" + c.Reward.String() + fmt.Sprint(c.RewardIndexes)
+					}
+					fmt.Fprintln(os.Stderr, line, descs)
+				}
+			}
+		}
+		beforeA := balances(A, w, height, t)
 		ra := world.Deliver(A, height, txs)
 		rb := world.Deliver(B, height, txs)
 		if ra.Panic != rb.Panic {
@@ -459,13 +489,36 @@ func runHistory(seed uint64, idx, nBlocks int, cnt *Counters) (*finding, int, []
 			}
 		}
 		ba, bb := balances(A, w, height, t), balances(B, w, height, t)
+		if os.Getenv("C14_DEBUG") != "" {
+			fmt.Fprintln(os.Stderr, "DBG after k=", k, "A user0/ukava", ba["user0/ukava"], "B", bb["user0/ukava"], "A user0/hard", ba["user0/hard"], "B", bb["user0/hard"])
+		}
 		for key, va := range ba {
 			vb, ok := bb[key]
 			if !ok {
 				vb = sdkmath.ZeroInt()
 			}
 			if va.Sub(vb).Abs().GT(sdkmath.NewInt(3)) {
-				return &finding{height, "followup-balance-differs", fmt.Sprintf("%s: original %s imported %s", key, va, vb), cfg}, nTx, sample
+				// An incentive claim pays rewards = index difference x the claimant's source shares; the
+				// export settled the interest of the underlying positions, which moves those shares by
+				// the rounding the property allows (one base unit), so the PAYOUT differs by that unit
+				// times the index difference: a relative difference of the order 1/shares.  Recorded
+				// finding, classified narrowly: the block contains an incentive claim, the balance of
+				// that denomination grew in the block on the original chain (a payout), and the two
+				// chains' payouts differ by less than one millionth of the payout.
+				hasClaim := false
+				for i := range ra.Txs {
+					if descs[i] == "incentive.claim" && ra.Txs[i].Code == 0 && rb.Txs[i].Code == 0 {
+						hasClaim = true
+					}
+				}
+				if pb, ok := beforeA[key]; hasClaim && ok && va.GT(pb) && va.Sub(vb).Abs().MulRaw(1_000_000).LT(va.Sub(pb)) {
+					return &finding{height, "followup-reward-payout-differs-by-settlement-rounding", fmt.Sprintf("%s: original %s imported %s (payout %s)", key, va, vb, va.Sub(pb)), cfg}, nTx, sample
+				}
+				txinfo := ""
+				for i := range ra.Txs {
+					txinfo += fmt.Sprintf(" [%s code=%d/%d]", descs[i], ra.Txs[i].Code, rb.Txs[i].Code)
+				}
+				return &finding{height, "followup-balance-differs", fmt.Sprintf("%s: original %s imported %s; follow-up block %d txs:%s", key, va, vb, k, txinfo), cfg}, nTx, sample
 			}
 		}
 		if n, m := world.ExtendedInvariants(B, B.NewContext(true, tmproto.Header{Height: height, Time: t, ChainID: app.TestChainId})); n != "" {
